@@ -786,6 +786,13 @@ void opt_args(opt_t * opt, int argc, char *argv[])
 
     if (opt->wcoll) {
         /*
+         *  Re-expand wcoll to allow two sets of brackets.
+         *   (For historical compatibility)
+         *  This comes first, so that the filters see the final names.
+         */
+        wcoll_expand (opt);
+
+        /*
          *  Now apply wcoll filtering
          */
         if (exclude_list) {
@@ -796,12 +803,6 @@ void opt_args(opt_t * opt, int argc, char *argv[])
             wcoll_apply_regex (opt, regex_list);
             list_destroy (regex_list);
         }
-
-        /*
-         *  Finally, re-expand wcoll to allow two sets of brackets.
-         *   (For historical compatibility)
-         */
-        wcoll_expand (opt);
     }
 }
 
@@ -1453,8 +1454,20 @@ static void wcoll_apply_excluded (opt_t *opt, List excludes)
      *  filter explicitly excluded hosts:
      */
     i = list_iterator_create (excludes);
-    while ((arg = list_next (i)))
-        hostlist_delete (opt->wcoll, arg);
+    while ((arg = list_next (i))) {
+        /*
+         *  Each name of the argument may hold a second set of brackets,
+         *   which hostlist_delete() expands.
+         */
+        hostlist_t hl = hostlist_create (arg);
+        char *host;
+        while (hl && (host = hostlist_pop (hl))) {
+            hostlist_delete (opt->wcoll, host);
+            free (host);
+        }
+        if (hl)
+            hostlist_destroy (hl);
+    }
     list_iterator_destroy (i);
 }
 
